@@ -249,8 +249,8 @@ var vC14AnyBodies = []string{
 
 // what ResultsOf must print for the literal-only bodies ("" = not literal-only)
 var (
-	vC14ErrWant   = map[int]string{0: "(untyped nil)"}
-	vC14PairWant  = map[int]string{0: "(1, untyped nil)", 5: "(1 | 2, untyped nil | untyped nil)", 10: "(2, untyped nil)"}
+	vC14ErrWant    = map[int]string{0: "(untyped nil)"}
+	vC14PairWant   = map[int]string{0: "(1, untyped nil)", 5: "(1 | 2, untyped nil | untyped nil)", 10: "(2, untyped nil)"}
 	vC14NamedWant  = map[int]string{}
 	vC14Named4Want = map[int]string{1: "(1, 2, \"s\", untyped nil)"}
 	vC14AnyWant    = map[int]string{0: "(\"a\")", 1: "(1)", 6: "(untyped nil)", 8: "(120 | true)"}
@@ -469,4 +469,41 @@ func Verif_C14_Literals(n int) {
 	}
 	verifsym.Observe("src", strings.Count(src, "\n"))
 	verifsym.Reach("end")
+}
+
+// ---------------------------------------------------------------- C12 through the real parser
+//
+// The attribution scenarios of C12 build the *ast.File by hand under the engine.
+// Since the real go/parser runs under the engine as well, the same scenarios
+// exist in a second form in which the scenario source - including comment texts
+// of arbitrary symbolic bytes - goes through the real scanner and parser on
+// both sides; nothing about comment attachment is assumed then.
+
+var vRealParser bool
+
+// vParse is parser.ParseFile; with vRealParser set the engine runs the real
+// parser (map ranges inside it in insertion order) instead of its contract stub.
+func vParse(fset *token.FileSet, filename string, src any, mode parser.Mode) (*ast.File, error) {
+	if vRealParser {
+		verifsym.Provide("real:go/parser.ParseFile", true)
+		verifsym.MapOrderBaseline(true)
+		defer verifsym.MapOrderBaseline(false)
+	}
+	return parser.ParseFile(fset, filename, src, mode)
+}
+
+func vWithRealParser(f func()) {
+	vRealParser = true
+	defer func() { vRealParser = false }()
+	f()
+}
+
+func Verif_C12_AttributionParsed(k int) { vWithRealParser(func() { Verif_C12_Attribution(k) }) }
+
+func Verif_C12_AttributionDeclsParsed(kind, k int) {
+	vWithRealParser(func() { Verif_C12_AttributionDecls(kind, k) })
+}
+
+func Verif_C12_DocTextParsed(n, m, multi int) {
+	vWithRealParser(func() { Verif_C12_DocText(n, m, multi) })
 }
